@@ -182,6 +182,8 @@ func WorkerMain(t *testing.T, h Harness) {
 		replayDir = "/verif/replays"
 	}
 	known := loadKnown(os.Getenv("VERIF_KNOWN"))
+	// additional known findings for development (e.g. proposed entries that are not yet registered)
+	known = append(known, loadKnown(os.Getenv("VERIF_KNOWN_EXTRA"))...)
 	selftest := os.Getenv("VERIF_SELFTEST") != ""
 
 	out := WorkerOut{Harness: h.Name, Property: prop, Faults: map[string]int{}, Probes: map[string]int{}, Strategies: map[string]int{},
